@@ -49,6 +49,15 @@ def gen_plan(seed, tier):
         plan['maps'] = [{'mode': rng.choice(['serial', 'shuffled', 'reversed']), 'salt': 0}]
         plan['modes'] = ['solve', 'while']
         plan['wrapper'] = False
+    r2 = sub_rng(seed, 'plan.c09.inst')
+    if plan['nested_instance'] and r2.random() < 0.5:
+        # the configured instance has no objective of its own: each ensemble it is handed to (one after the other, run to
+        # completion -- the documented use) has its members minimise THAT ensemble's objective
+        plan['instance_objective'] = False
+        plan['modes'] = ['solve']
+        if len(plan['maps']) < 2: plan['maps'] = plan['maps'] * 2
+        # (the members then run the ensemble's DECORATED objective: its constraints and penalty come with it -- keep the plan to the box)
+        plan['constraint'] = None; plan['penalty'] = None; plan['wrapper'] = False
     return plan
 
 
@@ -144,6 +153,13 @@ def check_variant(plan, run, s, peers, e0, mspec, mode, violate, stats):
         real = [len([e for e in evs if e.task == i]) for i in range(n)]
         if real != per:
             violate('total_evals_ne_calls', 'per-member evaluation counts %r, real cost calls per work item %r' % (per, real), **tags)
+    # (2a) ... and they were calls of the objective given to THIS ensemble (the object itself, where the map hands it on by
+    # reference; a configured nested instance with an objective of its own carries copies of it)
+    if (mspec or {}).get('mode') != 'process' and plan.get('nested_instance') and plan.get('instance_objective') is False:
+        mine_ = getattr(peers['cost'], 'ncalls', None)
+        if mine_ is not None and mine_ != len(evs):
+            violate('evaluations_not_of_given_objective', '%d real cost calls were made during this ensemble run, %d of them calls of the '
+                    'objective this ensemble was given (_total_evals=%r)' % (len(evs), mine_, tot), **tags)
     # (2b) every member was actually started and did work
     idle = [i for i in range(n) if not per[i]]
     if idle:
